@@ -21,6 +21,7 @@ import (
 	"strings"
 	"sync"
 	"time"
+	"unicode/utf8"
 
 	"github.com/prometheus/client_golang/prometheus"
 	"github.com/robustirc/robustirc/internal/config"
@@ -669,13 +670,27 @@ func (i *IRCServer) send(reply *Replyctx, msg *irc.Message) *robust.Message {
 
 	reply.replyid++
 
+	// msg.Bytes() truncates the line to 510 bytes, possibly in the middle
+	// of a multi-byte UTF-8 sequence. The partial sequence would be replaced
+	// by U+FFFD (3 bytes) when the line is JSON-encoded for the client,
+	// making the line longer than the limit again, so drop it.
+	data := string(msg.Bytes())
+	if len(data) >= 510 {
+		for n := 0; n < utf8.UTFMax-1 && len(data) > 0; n++ {
+			if r, size := utf8.DecodeLastRuneInString(data); r != utf8.RuneError || size != 1 {
+				break
+			}
+			data = data[:len(data)-1]
+		}
+	}
+
 	robustmsg := &robust.Message{
 		// The IDs must be the same across servers.
 		Id: robust.Id{
 			Id:    reply.msgid,
 			Reply: reply.replyid,
 		},
-		Data:           string(msg.Bytes()),
+		Data:           data,
 		InterestingFor: make(map[uint64]bool),
 	}
 
